@@ -160,6 +160,26 @@ def child_main(spec_path: str) -> int:
         junk.append([object() for _ in range(junk_rng.randrange(1, 200))])
         if junk_rng.random() < 0.3 and junk:
             junk.pop(junk_rng.randrange(len(junk)))
+    # Scramble the allocator's free lists: sequentially created objects normally get increasing
+    # addresses, so code that orders by id() *looks* deterministic.  Fill every small size
+    # class, then free a seeded subset in seeded order: later allocations reuse those holes in
+    # LIFO order, i.e. with non-monotonic addresses that differ between children.
+    class _Slot:  # instances with a dict, like most objects of the code under test
+        pass
+
+    holes: List[Any] = []
+    for size in range(0, 480, 8):
+        holes.extend(bytes(size) for _ in range(junk_rng.randrange(50, 400)))
+    for _ in range(junk_rng.randrange(2000, 20000)):
+        o = _Slot()
+        o.a = 1  # type: ignore[attr-defined]
+        holes.append(o)
+    holes.extend([None] * k for k in range(1, 30) for _ in range(junk_rng.randrange(20, 200)))
+    junk_rng.shuffle(holes)
+    keep = junk_rng.randrange(len(holes) // 4, len(holes) // 2)
+    while len(holes) > keep:
+        holes.pop()
+    junk.append(holes)
     order = list(range(len(cases)))
     random.Random(child["pos_seed"]).shuffle(order)
     results: Dict[str, Any] = {}
